@@ -29,7 +29,7 @@ ASSUMPTIONS = [
     "grids inside the C13 domain (>= 2 states per half-axis); n-d grids of at most 15 points per axis (2-d) / 9 (3-d)",
 ]
 REQUIRED_COUNTERS = ["rate_comparisons_1d", "intensity_checks", "tiling_checks", "nd_cell_comparisons", "nd_row_sums",
-                     "grid_init_postconditions", "infinite_variation_copula_chains", "second_model_on_the_same_grid"]
+                     "grid_init_postconditions", "infinite_variation_copula_chains", "second_model_on_the_same_grid", "chain_rebuilt_after_refining_the_same_grid"]
 MIN_NONTRIVIAL = {"quick": 60, "thorough": 400}
 THOROUGH_ROUNDS = 5      # the thorough tier runs the generators this many times (different seeds)
 SHARD_TIMEOUT = {"quick": 900, "thorough": 7200}
@@ -54,7 +54,7 @@ def gen_cases(tier, seed):
             if ctor == "probstep":
                 lev = min(lev, 2)
             meths = list(C.METHODS_1D) if thorough or i % 5 == 0 else [C.METHODS_1D[i % 6], C.METHODS_1D[(i + 3) % 6]]
-            cases.append({"model": m, "grid": G.gen_grid_spec(rng, ctor, 1), "level": lev, "methods": meths})
+            cases.append({"model": m, "grid": G.gen_grid_spec(rng, ctor, 1), "level": lev, "methods": meths, "then_refine": bool(i % 3 == 0 and lev <= 2)})
     # copulas
     nnd = 14 if not thorough else 120
     kinds = ["clayton", "independent", "dependent", "clayton"]
@@ -85,7 +85,7 @@ def gen_cases(tier, seed):
         if ctor in ("geometric", "geometric_bounds"):
             g["n_side"] = int(rng.integers(2, 6 if dim == 2 else 4))
         cases.append({"model": cm, "grid": g, "level": int(rng.integers(0, 2)) if dim == 2 else 0,
-                      "methods": ["INVERSION"] + (["BINARYSEARCHTREEADAPTED"] if j % 2 == 0 or thorough else [])})
+                      "methods": ["INVERSION"] + (["BINARYSEARCHTREEADAPTED"] if j % 2 == 0 or thorough else []), "then_refine": bool(dim == 2 and j % 2 == 1)})
         if dim == 2 and ctor in ("fixed", "geometric_bounds"):
             # a second model of the same families on the very same (model-independent) grid, in the same process: rates must be
             # those of the second model (state shared between model instances, e.g. a cache keyed by the abscissa only)
@@ -109,23 +109,27 @@ def run_case(case, R, ctx):
     R.evaluation()
     mspec = case["model"]
     try:
-        if "margins" in mspec:
-            _run_nd(case, R)
-            if case.get("then"):
-                R.hit("second_model_on_the_same_grid")
-                _run_nd(dict(case, model=case["then"]), R)
-        else:
-            _run_1d(case, R)
+        run = _run_nd if "margins" in mspec else _run_1d
+        out = run(case, R)
+        if out and case.get("then_refine") and case["grid"]["ctor"] != "probstep":
+            # the couplings build a chain on a grid, refine that grid IN PLACE and build the next chain on it: same claims one level up
+            model, grid, g = out
+            grid.refine()
+            R.hit("chain_rebuilt_after_refining_the_same_grid")
+            run(dict(case, level=case["level"] + 1, methods=case["methods"][:1]), R, prebuilt=(model, grid, g))
+        if "margins" in mspec and case.get("then"):
+            R.hit("second_model_on_the_same_grid")
+            _run_nd(dict(case, model=case["then"]), R)
     finally:
         contracts.drain(R, prefix="grid-contract-")
 
 
 # --------------------------------------------------------------------------------------------------------
-def _run_1d(case, R):
+def _run_1d(case, R, prebuilt=None):
     mspec, lev = case["model"], case["level"]
     label = W.model_label(mspec)
     try:
-        model, grid, g = C.build_grid_and_model(mspec, case["grid"], lev)
+        model, grid, g = prebuilt or C.build_grid_and_model(mspec, case["grid"], lev)
     except (G.OutsideDomain, ValueError) as exc:
         R.skip("outside-domain: " + type(exc).__name__)
         return
@@ -212,6 +216,7 @@ def _run_1d(case, R):
             R.nontrivial_case(label, mspec["params"], {k: v for k, v in g.items() if not k.startswith("_")}, lev, method)
     R.sample({"model": label, "grid": {k: v for k, v in g.items()}, "level": lev, "states": int(n), "intensity_oracle": lam_oracle,
               "first_cells": [[float(lo[k]), float(axis[k]), float(hi[k]), float(rates[k])] for k in range(min(3, n))]})
+    return model, grid, g
 
 
 def _tiling_exists(R, label, ctor, lev, method, mspec, g, model, axis, o, obs, lam, tol_meas):
@@ -289,11 +294,11 @@ def _observed_rates_1d(method, proc, rec, grid, lam, oracle_rates, R):
 
 
 # --------------------------------------------------------------------------------------------------------
-def _run_nd(case, R):
+def _run_nd(case, R, prebuilt=None):
     cm, lev = case["model"], case["level"]
     label = W.copula_label(cm)
     try:
-        model, grid, g = C.build_grid_and_model(cm, case["grid"], lev)
+        model, grid, g = prebuilt or C.build_grid_and_model(cm, case["grid"], lev)
         if not model.jump_of_finite_variation():
             R.hit("infinite_variation_copula_chains")
     except (G.OutsideDomain, ValueError) as exc:
@@ -429,3 +434,4 @@ def _run_nd(case, R):
             R.nontrivial_case(label, cm, {k: v for k, v in g.items() if not k.startswith("_")}, lev, method)
     R.sample({"copula_model": label, "margins": [W.model_label(m) for m in cm["margins"]], "grid": g, "level": lev,
               "states": len(states), "intensity_oracle": lam_oracle})
+    return model, grid, g
